@@ -238,4 +238,21 @@ pub mod verif {
             observer(action, 1, log.is_some(), suppress, entries)
         }
     }
+
+    /// Structured observations of the SQL back end: `(point, JSON payload)`; the payload is only built
+    /// when an observer is installed.
+    pub type JsonObserver = fn(&'static str, String);
+
+    static JSON_OBSERVER: RwLock<Option<JsonObserver>> = RwLock::new(None);
+
+    pub fn set_json_observer(observer: Option<JsonObserver>) {
+        *JSON_OBSERVER.write().unwrap_or_else(|e| e.into_inner()) = observer;
+    }
+
+    pub(crate) fn emit(point: &'static str, payload: impl FnOnce() -> String) {
+        let observer = *JSON_OBSERVER.read().unwrap_or_else(|e| e.into_inner());
+        if let Some(observer) = observer {
+            observer(point, payload())
+        }
+    }
 }
